@@ -72,6 +72,9 @@ BENIGN = {
     ("impls::physical::PhysicalFS", "*", "call:Path::join"): "std::path vs async_std::path join (same semantics)",
     ("impls::physical::PhysicalFS", "*", "call:Path::to_path_buf"): "path conversion",
     ("impls::physical::PhysicalFS", "read_dir", "call:Iterator::next"): "sync iterates a std ReadDir in a for loop, async drains a stream with while-let: same events",
+    ("impls::physical::PhysicalFS", "exists", "call:Path::exists"): "which single stat-like probe exists() uses is decided by Table O (exactly one access/stat, never fails) in both worlds",
+    ("impls::physical::PhysicalFS", "exists", "call:Path::try_exists"): "same",
+    ("impls::physical::PhysicalFS", "exists", "call:fs::metadata"): "same",
     ("path::WalkDirIterator", "next", "*"): "the stream state machine is checked by R15.4/R05.3 instead of by event sets",
     ("path::VfsPath", "walk_dir", "call:Vec::new"): "constructor detail",
     ("path::VfsPath", "remove_dir_all", "call:remove_dir_all"): "async recursion is boxed by #[async_recursion]",
@@ -358,6 +361,14 @@ def run(facts, rep, tier, ctx):
     rep.floor("Table M obligations on AsyncMemoryFS", n, 14)
     n = physrules.table_o_shape(facts, A, "O", wa)
     rep.floor("PhysicalFS std-call obligations on the async world", n, 20)
+    # where the twin comparison accepts different callees (which stat-like probe exists() uses), the property that makes them
+    # interchangeable is required of the sync side here as well
+    scratch_o = Report("o")
+    physrules.table_o_shape(facts, scratch_o, "O", World(facts, False))
+    for o in scratch_o.obligations:
+        d = o["key"].split("|")[2]
+        if d in ("exists never fails", "exists performs exactly access"):
+            rep.ob("R15.2s", o["fn"], d, o["ok"], o["detail"], o["loc"])
     h = Handles(facts, True, D)
     n = h.seek_rules(A, "R14.2", "R14.3") + h.read_rules(A, "R14.4")
     rep.floor("async reader obligations", n, 16)
